@@ -7,6 +7,7 @@ from .. import codec
 from .. import framepaths as F
 from .. import interp as I
 from .. import terms as T
+from ..interp import _walk_own_nodes as I_walk_own
 from ..model import AnalysisError
 from ..terms import Sym
 
@@ -129,6 +130,7 @@ def run(chk, ctx):
     prog = ctx.prog
     seen = set()
     loops = []
+    static_loops = {}
     rec_calls = []
     entry_funcs = []
     dmod = prog.module('decode')
@@ -165,10 +167,16 @@ def run(chk, ctx):
             it, outs = codec.run(prog, fi, args)
         loops.extend(it.loops)
         rec_calls.extend(it.rec_calls)
+        for k_, n_ in it.static_loops.items():
+            static_loops[k_] = max(static_loops.get(k_, 0), n_)
     keys = [k for k, _ in ctx.index_mapping()]
     f = F.UnmarshalFacts(ctx, keys[0] if keys else None)
     loops.extend(f.it.loops)
     rec_calls.extend(f.it.rec_calls)
+    f_hdr = F.UnmarshalFacts(ctx, None)
+    for it_ in (f.it, f_hdr.it):
+        for k_, n_ in it_.static_loops.items():
+            static_loops[k_] = max(static_loops.get(k_, 0), n_)
     # a loop is judged in the activation where its function is analysed on
     # its own (callees inlined, so the conditional behaviour of the element
     # decoder on non-empty input is visible), not through a recursion
@@ -231,24 +239,40 @@ def run(chk, ctx):
     # remaining (static) loops on the decode side: For loops that the
     # interpreter unrolled are bounded by literal sequences; list them
     nstatic = 0
+    reached = {}
     for fi in list(dmod.functions.values()) + [
             prog.find_method(prog.cls('base.Frame'), 'unmarshal'),
             prog.find_method(prog.cls('base.BasicProperties'), 'unmarshal')]:
-        if fi is None:
+        if fi is not None:
+            reached[fi.qualname] = fi
+    for it_ in (f.it, f_hdr.it):
+        for short, _chain, _seq, _d in it_.calls:
+            fi = prog.functions.get('pamqp.' + short.split(' ')[0])
+            if fi is not None:
+                reached[fi.qualname] = fi
+    for q in sorted(reached):
+        fi = reached[q]
+        if isinstance(fi.node, ast.Lambda):
             continue
-        for n in ast.walk(fi.node):
+        for n in I_walk_own(fi.node):
             if isinstance(n, (ast.For, ast.While)):
                 k = (fi.qualname, n.lineno)
                 if k in seen:
                     continue
                 nstatic += 1
-                okk = isinstance(n, ast.For) and isinstance(
-                    n.iter, ast.Attribute) and n.iter.attr == '__slots__'
-                chk.ob('C08.F', '%s loop' % fi.short, okk,
-                       'iterates over the literal slot list' if okk else
-                       'loop was not summarised as data-dependent and is '
-                       'not over a literal slot list',
-                       site='%s:%d' % (fi.module.relpath, n.lineno))
+                site = '%s:%d' % (fi.module.relpath, n.lineno)
+                if k in static_loops:
+                    chk.ob('C08.F', '%s loop at line %d' % (fi.short,
+                                                            n.lineno), True,
+                           'unrolled by the analysis: at most %d iterations '
+                           'over a compile-time sequence / statically '
+                           'decided exit' % static_loops[k], site=site)
+                else:
+                    chk.undecide('C08.F', '%s loop at line %d' %
+                                 (fi.short, n.lineno),
+                                 'the loop is neither summarised as '
+                                 'data-dependent nor unrolled in any '
+                                 'abstract run of the decode side')
     chk.units['loops'] = len(seen)
     chk.units['entry_functions'] = len(entry_funcs) + 1
     chk.assume('slice copies and struct reads cost time linear in their '
